@@ -1,3 +1,4 @@
+#![allow(dead_code)]
 //! Shared helpers of vf-fn: plain-data types (`Ty`) and values (`V`), per-type value pools, conversion to
 //! Arrow arrays in several physical representations, and a canonical per-row rendering used to compare
 //! results across encodings.
